@@ -206,13 +206,56 @@ def r3_reconstruct(facts, rep):
         hc = dom.decide(store, T("has_conversion", Sym("unit")))
         convs = [e for e in log if e[0] == "conv"]
         if hc and r["kind"] == "ok":
-            good = good and len(convs) == 1 and convs[0][1] == mp and convs[0][2] == Const(True) and convs[0][3] == Sym("conversion(unit)")
+            # shed from the value with the power mod_power - times the power with which that value enters the combined
+            # result, when reconstruct is told (shedding f^p from a/b is shedding f^-p from b)
+            good = good and len(convs) == 1 and convs[0][1] in (mp, T("i*", mp, Sym("side")), T("i*", Sym("side"), mp)) \
+                and convs[0][2] == Const(True) and convs[0][3] == Sym("conversion(unit)")
         if hc is False:
             good = good and not convs
         rep.ob("C04-R3", key, good, "reconstruct: bases_match(%r); base cell %r; unit %s; conversions %s" % (
             bm[0][1], cells.get("base"), cells.get("unit") if unit_has else [repr(e[3]) for e in log if e[0] == "insert"],
             [(repr(e[1]), repr(e[2])) for e in convs]), r["site"], sample={"path_condition": [repr(p)[:60] + "=" + str(b) for p, b in r["pc"]]})
     rep.floor("C04-R3", "reconstruct paths with a re-derived unit", n, 6)
+
+
+def r9_operand_faithful(facts, rep, rule="C04-R9"):
+    rep.rule(rule, "a unit is re-derived on the value of the operand it came from (summary of Compound::mul, reconstruct as an "
+                   "effect): the caller combines the two values afterwards, which commutes with a multiplicative conversion but "
+                   "not with the zero-point offset of a temperature scale - so every call of reconstruct is given the derived "
+                   "units of one operand together with that operand's value (and, for the right operand, the power n with which "
+                   "its value enters), and between them the calls cover both operands (`3 min/s * 2 °C` = `2 °C * 3 min/s`)")
+    res = U.mul_summary(facts, False, False)
+    if not rep.ob(rule, "anchor:mul", res is not None, "Compound::mul analysed"):
+        return
+    bad = []
+    n_ok = 0
+    for r in res:
+        if r["kind"] != "ok":
+            continue
+        calls = [e for e in r["log"] if e[0] == "reconstruct"]
+        covered = set()
+        for e in calls:
+            der, out, side = e[1], e[2], e[3]
+            txt = repr(der)
+            sides = {w for w in ("self", "other") if "derived(%s.unit)" % w in txt}
+            covered |= sides
+            if len(sides) != 1:
+                bad.append("reconstruct sheds the units re-derived from %s from one value (%s)" % (" and ".join(sorted(sides)) or "no operand", out))
+                continue
+            w = next(iter(sides))
+            want_out = "lhs" if w == "self" else "rhs"
+            if out != want_out:
+                bad.append("units derived from the %s operand are shed from %s" % ("left" if w == "self" else "right", out))
+            if w == "other" and side != Sym("n"):
+                bad.append("units derived from the right operand are shed from its value without the power n it enters with (%r)" % (side,))
+            if w == "self" and side is not None and side != Const(1):
+                bad.append("units derived from the left operand are shed with side %r" % (side,))
+        if calls:
+            n_ok += 1
+            if covered != {"self", "other"}:
+                bad.append("the derived units of %s are never re-derived" % sorted({"self", "other"} - covered))
+    rep.ob(rule, "mul:re-derivation-by-operand", not bad and n_ok >= 1, "; ".join(sorted(set(bad))[:3]) if bad else
+           "every re-derivation sheds a unit from the value of the operand it came from (%d path(s))" % n_ok, facts.fn("compound::Compound::mul").site())
 
 
 def r4_wiring(facts, rep):
@@ -253,6 +296,7 @@ def run(fx, rep, tier):
         r2_r5_mul(facts, sub)
         r3_reconstruct(facts, sub)
         r4_wiring(facts, sub)
+        r9_operand_faithful(facts, sub)
         if cfg == "dev":
             from . import c05, c19
             rep.rule("C04-R6", "base dimensions are a multiple of the power: every unit's dimension table is linear in the power "
@@ -268,6 +312,17 @@ def run(fx, rep, tier):
             c19.r7_unit_exponent(facts, s2, "C04-R7")
             rep.rules["C04-R7"] = "the dimension shown is the dimension computed: " + s2.rules["C04-R7"] + " (shared with C19-R7)"
             for o in s2.obls:
+                rep.obls.append(o)
+            # an expression tree over * / ^ is the tree the grammar builds: `a / b^n / c` divides twice
+            from . import c06
+            rep.rule("C04-R8", "every mix of * / ^ is grouped as the grammar prescribes before it is evaluated: the priority levels "
+                               "(C06-R1) and the precedence and left associativity of the operator stack (inductive, C06-R6)")
+            s8 = type(rep)(rep.prop, rep.tier)
+            pr = c06.r1_table(facts, s8)
+            if pr is not None:
+                c06.r6_stack(facts, s8, pr, "quick")
+            for o in s8.obls:
+                o["rule"] = "C04-R8"
                 rep.obls.append(o)
         if sub is not rep:
             for o in sub.obls:
